@@ -21,6 +21,7 @@ type omap struct {
 	fast    map[value]int // concrete basic keys -> entry index
 	slow    []int         // indices of entries whose key is not a concrete basic value
 	n       int
+	atomic  bool // sync.Map: operations are linearizable, not subject to the race monitor
 }
 
 func makeMap(kt types.Type, reserve int64) value {
@@ -60,7 +61,7 @@ func (m *omap) find(k value) int {
 }
 
 func (m *omap) lookup(k value) (value, bool) {
-	if m != nil {
+	if m != nil && !m.atomic {
 		raceRead(&m.cell)
 	}
 	if i := m.find(k); i >= 0 {
@@ -73,7 +74,9 @@ func (m *omap) insert(k, v value) {
 	if m == nil {
 		panic("runtime error: assignment to entry in nil map")
 	}
-	raceWrite(&m.cell)
+	if !m.atomic {
+		raceWrite(&m.cell)
+	}
 	if i := m.find(k); i >= 0 {
 		e := m.entries[i]
 		if undoOn {
@@ -109,7 +112,9 @@ func (m *omap) delete(k value) {
 	if m == nil {
 		return
 	}
-	raceWrite(&m.cell)
+	if !m.atomic {
+		raceWrite(&m.cell)
+	}
 	if i := m.find(k); i >= 0 {
 		e := m.entries[i]
 		e.deleted = true
@@ -186,7 +191,7 @@ func (it *omapIter) next() tuple {
 var PermuteMaps bool
 
 func newMapIter(m *omap) iter {
-	if m != nil {
+	if m != nil && !m.atomic {
 		raceRead(&m.cell)
 	}
 	es := m.live()
